@@ -69,13 +69,17 @@ Print Assumptions C01_blob_flow.
    _encrypt_blob (encrypt_blob); the blob is decrypted offline with any cache satisfying cache_ok. dh_env_ok / ecdh_env_ok
    (Proofs/C01.v) say that ep is what MS-GKDI prescribes for this root key: flag bit 0 set, same KDF parameters and secret
    agreement algorithm as the root key, and the public key g^y mod p (resp. y*G) of the group private key y derived from the
-   chain seed key of the position. From C03_agree_dh / C03_agree_ecdh. r3 is the ephemeral private key drawn by new_kek. *)
+   chain seed key of the position. From C03_agree_dh / C03_agree_ecdh. r3 is the ephemeral private key drawn by new_kek.
+   Since the repair of D16 the receiver checks the peer's DH key blob against the group's parameters and refuses the degenerate
+   public values 0, 1, p - 1: dh_env_ok also says that ep carries the root key's secret agreement parameters, that these are
+   the group (kl, p, g) and that the group public value is a valid element (Spec/KekSpec.v dh_pub_valid), cache_ok says that
+   cached envelopes carry the root key's parameters (eo_sparams), and the ephemeral public value g^r3 mod p must be valid. *)
 Theorem C01_roundtrip_pubkey : forall (c : Crypto) (h : hash) (rk : root_key) (rkid : bytes) (s : sid) (sid : pystr) (l0 l1 l2 : Z),
   rk_hash rk = Ok h -> rk_kdf_alg rk = STR_KDF_ALG -> len rkid = 16 -> sid_parse sid = Ok s -> sid_okb sid = true ->
   0 <= l0 <= 2147483647 -> 0 <= l1 <= 31 -> 0 <= l2 <= 31 -> CryptoLaws c ->
   forall (ep : envelope) (seed : bytes) (kl p g : Z) (r1 r2 r3 data blob : bytes),
   derived_seed c h rk rkid (target_sd s) l0 l1 l2 = Ok seed -> dh_env_ok c h rk rkid l0 l1 l2 ep seed kl p g ->
-  wfb r3 = true -> 8 + 3 * kl < U32 -> len r2 = 12 ->
+  wfb r3 = true -> dh_pub_valid p (dh_public p g (OS2IP r3)) -> 8 + 3 * kl < U32 -> len r2 = 12 ->
   (forall kek kid w, new_kek_rnd c ep r3 = Ok (kek, kid) -> kw_wrap c kek r1 = Ok w -> len w < U32) ->
   (forall ct, gcm_enc c r1 r2 data = Ok ct -> len ct < U32) ->
   encrypt_blob c r1 r2 r3 data ep sid = Ok blob ->
@@ -178,6 +182,9 @@ Example C01_example_pubkey_dh : exists blob,
   fst (unprotect_offline symg ex_cache blob) = Ok [1; 2; 3] /\
   exists blob2, (let* b := blob_unpack blob in blob_pack b false) = Ok blob2 /\ fst (unprotect_offline symg ex_cache blob2) = Ok [1; 2; 3].
 Proof. exact example_pubkey_dh. Qed.
+(* the validity hypotheses hold of that instance: the ephemeral public value (the group's is a field of ex_dh_env_ok) *)
+Example C01_example_pubkey_dh_valid : dh_pub_valid 65521 (dh_public 65521 17 (OS2IP ex_r3)).
+Proof. exact ex_r3_pub_valid. Qed.
 Example C01_example_pubkey_ecdh : exists blob,
   encrypt_blob symg ex_r1 ex_r2 ex_r3 [1; 2; 3] ex_ep_ecdh ex_sid = Ok blob /\
   fst (unprotect_offline symg ex_cacheE blob) = Ok [1; 2; 3] /\
